@@ -898,6 +898,20 @@ def parsed_cases(base_seed, tier):
     blocks = sorted(b for b in c17.BLOCKS if not b.endswith('_open') and not c17.NEEDS.get(b))
     for j in range(0, len(blocks), 8):
         rec(('blk', j), [{'op': 'PARSE', 'items': [c17.BLOCKS[b][2] % {'n': str(k)} for k, b in enumerate(blocks[j:j + 8])]}])
+    # a user macro expanded in several places: its body tokens are the SAME objects at every expansion, only
+    # normalisation (which builds fresh text nodes) keeps one text node from being listed by several containers
+    shared = [
+        ([], ['\\newcommand{\\qx}{a}', '\\textbf{\\qx} and \\emph{\\qx} and $\\qx$ and \\qx.', '\n\n', 'Again \\textbf{\\qx}\\footnote{\\qx} \\mbox{\\qx}.', '\n\n']),
+        ([], ['\\newcommand{\\qvv}{vw}', 'Formula \\[ \\qvv \\]', '\\begin{center}\\qvv\\end{center}', '\\[ \\qvv \\]', '\n\n', 'Tail \\qvv.', '\n\n']),
+        (['hyperref'], ['\\newcommand{\\qsite}{example.org}', 'See \\url{http://\\qsite/a--b} and \\href{http://\\qsite/c}{link \\qsite}.', '\n\n',
+                        'And \\nolinkurl{http://\\qsite/d}.', '\n\n']),
+        (['url'], ['\\newcommand{\\qsite}{example.org}', 'See \\url{http://\\qsite/a--b} twice \\url{http://\\qsite/a--b}.', '\n\n', 'End.', '\n\n']),
+        ([], ['\\def\\qy{shared words}', '\\section{\\qy}', 'Body \\qy.', '\\begin{figure}F\\caption{\\qy}\\end{figure}', '\\section{\\qy}', '\n\n',
+              '\\begin{itemize}\\item \\qy \\item[\\qy] \\qy\\end{itemize}', '\n\n']),
+        ([], ['\\newcommand{\\qz}[1]{<#1|#1>}', '\\qz{arg} \\textit{\\qz{arg}}', '\n\n', '\\begin{tabular}{ll}\\qz{c} & \\qz{c}\\end{tabular}', '\n\n']),
+    ]
+    for j, (pk, items) in enumerate(shared):
+        rec(('shared', j), [{'op': 'PARSE', 'items': items, 'packages': pk}])
     for rel in PARSED_CORPUS + (['Doc/plastex.tex'] if tier == 'thorough' else []):
         rec(('file', rel), [{'op': 'PARSEFILE', 'rel': rel}])
     r = random.Random(core.h64('C06-parsed-bags', base_seed))
@@ -969,7 +983,8 @@ def execute_parsed(record, res):
                 tex = TeX(file=path)
             else:
                 tex = TeX()
-                tex.input('\\documentclass{article}\\begin{document}\\section{S}\\label{fzl1}\\label{sec1}\n%s\n\\end{document}' % ' '.join(op['items']))
+                tex.input('\\documentclass{article}%s\\begin{document}\\section{S}\\label{fzl1}\\label{sec1}\n%s\n\\end{document}'
+                          % (''.join('\\usepackage{%s}' % q for q in op.get('packages', [])), ' '.join(op['items'])))
             doc = tex.parse()
         except BaseException as e:
             log.append(['raise', type(e).__name__])          # the input does not get through the parser: no tree to judge
